@@ -83,6 +83,11 @@ func liveLeaves(v ssa.Value) []ssa.Value {
 			if deadEdge(phi.Block().Preds[i], phi.Block()) {
 				continue
 			}
+			// a loop-header phi seen from after the loop: the value it has on first arrival is
+			// only visible there if the loop can exit without running its body once
+			if entryEdgeInvisibleAfterLoop(phi, i) {
+				continue
+			}
 			walk(e)
 		}
 	}
@@ -579,4 +584,59 @@ func everyPathHas(fn *ssa.Function, ret *ssa.Return, pred func(Fact) bool) (bool
 	}
 	walk(fn.Blocks[0], false, nil)
 	return okAll, trail
+}
+
+// entryEdgeInvisibleAfterLoop: phi sits in a loop header H whose terminator is `if cond` with
+// one successor inside the loop and one outside; edge i enters H from outside the loop. If
+// cond, evaluated with every phi of H replaced by its operand on that entry edge, folds to
+// "stay in the loop", then the loop body runs at least once after entering through edge i,
+// so a use of the phi *outside* the loop never observes operand i directly (it observes a
+// later value). Only valid for uses dominated by the exit successor; callers use it for
+// values consumed after the loop.
+func entryEdgeInvisibleAfterLoop(phi *ssa.Phi, i int) bool {
+	h := phi.Block()
+	pred := h.Preds[i]
+	if h.Dominates(pred) {
+		return false // a back edge, not an entry edge
+	}
+	isHeader := false
+	for _, p := range h.Preds {
+		if h.Dominates(p) {
+			isHeader = true
+		}
+	}
+	if !isHeader {
+		return false
+	}
+	iff, ok := h.Instrs[len(h.Instrs)-1].(*ssa.If)
+	if !ok {
+		return false
+	}
+	// which successor stays in the loop? the one from which h is reachable again
+	stayTrue := blockReaches(h.Succs[0], h) || h.Succs[0] == h
+	stayFalse := blockReaches(h.Succs[1], h) || h.Succs[1] == h
+	if stayTrue == stayFalse {
+		return false
+	}
+	subst := func(v ssa.Value) ssa.Value {
+		if p, ok := v.(*ssa.Phi); ok && p.Block() == h {
+			return p.Edges[i]
+		}
+		return v
+	}
+	bo, ok := iff.Cond.(*ssa.BinOp)
+	if !ok {
+		return false
+	}
+	cx, ok1 := subst(bo.X).(*ssa.Const)
+	cy, ok2 := subst(bo.Y).(*ssa.Const)
+	if !ok1 || !ok2 || cx.Value == nil || cy.Value == nil {
+		return false
+	}
+	switch bo.Op {
+	case token.LSS, token.LEQ, token.GTR, token.GEQ, token.EQL, token.NEQ:
+		val := constant.Compare(cx.Value, bo.Op, cy.Value)
+		return val == stayTrue
+	}
+	return false
 }
